@@ -147,6 +147,9 @@ def run(facts, rep, tier):
 
     # ---- 5 DEPCHECK --------------------------------------------------------------------------------------
     depcheck(F, rep)
+    # ---- 7 NOMINAL / 8 CTXSCOPE ----------------------------------------------------------------------------
+    nominal(F, rep)
+    ctxscope(F, rep, chk)
 
     # ---- 6 ARGTYPES --------------------------------------------------------------------------------------
     cc = F.one_fn("check_call")
@@ -234,3 +237,176 @@ def depcheck(F, rep):
                             "`no lowering unless the checker passed` holds for the main module only): bodies of "
                             "imported modules are compiled without ever being checked",
                             file=f.file, line=t.get("ln"), fn=p))
+
+
+# ---------------------------------------------------------------------------------------------------------------
+# 7 NOMINAL: types_compatible on distinct primitive / nominal / generic heads (decision table by constant propagation)
+# 8 CTXSCOPE: the `?` error-type context is scoped: whoever overwrites it restores or clears it before returning
+# ---------------------------------------------------------------------------------------------------------------
+RT = "incan::frontend::symbols::ResolvedType"
+
+
+def nominal(F, rep):
+    from mireval import Evaluator, OutOfFragment, UNKNOWN, enum, opt_none
+    tc = F.one_fn("TypeChecker::types_compatible")
+    if not rep.anchor("NOMINAL", "TypeChecker::types_compatible", tc):
+        return
+    rep.functions.add(tc.path)
+
+    def s(x):
+        return ("str", '"%s"' % x)
+
+    def vec(items):
+        return ("vec", tuple(items))
+
+    def named(n):
+        return enum(RT, "Named", [s(n)])
+
+    def generic(n, args):
+        return enum(RT, "Generic", [s(n), vec(args)])
+
+    def prim(n):
+        return enum(RT, n)
+
+    def hook(name, gen, args, t, ev):
+        last = gen.split("::")[-1]
+        if name.endswith("helpers::collection_type_id") or name.endswith("helpers::stringlike_type_id") \
+                or name.endswith("collections::from_str") or name.endswith("stringlike::from_str"):
+            return opt_none()  # user-defined type names are not builtin collection / string-like names
+        if last in ("as_str", "as_slice"):
+            return ev.deref_all(args[0])
+        if last == "len":
+            a = ev.deref_all(args[0])
+            if a[0] == "vec":
+                return ("int", len(a[1]))
+        return None
+
+    prims = ["Int", "Float", "Bool", "Str", "Bytes", "Unit"]
+    cells = []
+    for a in prims:
+        for b in prims:
+            cells.append(("%s->%s" % (a, b), prim(a), prim(b), a == b))
+    cells += [
+        ("Named(A)->Named(A)", named("A"), named("A"), True),
+        ("Named(A)->Named(B)", named("A"), named("B"), False),
+        ("Named(A)->Int", named("A"), prim("Int"), False),
+        ("Int->Named(A)", prim("Int"), named("A"), False),
+        ("Generic(Box,[Int])->Generic(Box,[Int])", generic("Box", [prim("Int")]), generic("Box", [prim("Int")]), True),
+        ("Generic(Box,[Int])->Generic(Wrapper,[Int])", generic("Box", [prim("Int")]),
+         generic("Wrapper", [prim("Int")]), False),
+        ("Generic(Box,[Int])->Named(Box)", generic("Box", [prim("Int")]), named("Box"), False),
+        ("Generic(Box,[Int])->Int", generic("Box", [prim("Int")]), prim("Int"), False),
+    ]
+    n = 0
+    for key, a, b, want in cells:
+        n += 1
+        try:
+            res = Evaluator(F, call_hook=hook).run(tc, [UNKNOWN, ("ref", {0: a}, {"l": 0, "p": []}),
+                                                        ("ref", {0: b}, {"l": 0, "p": []})])
+        except OutOfFragment as e:
+            res = ("out-of-fragment", str(e))
+        got = res[1] if res[0] == "bool" else "undecided(%s)" % res[0]
+        ok = got == want
+        rep.oblige("NOMINAL", key, ok, sample={"rule": "NOMINAL", "cell": key, "compatible": got, "expected": want})
+        if not ok:
+            rep.add(Finding("NOMINAL", "NOMINAL|types_compatible|%s" % key,
+                            "types_compatible(%s) evaluates to %s; distinct nominal/primitive types must be "
+                            "incompatible (expected %s): a value of the wrong type would be accepted in "
+                            "assignments, returns and method arguments" % (key, got, want),
+                            file=tc.file, line=tc.line, fn=tc.path))
+    rep.floor("NOMINAL", "cells of types_compatible", n, 44)
+    rep.exhaustive_tables.append({"table": "types_compatible (primitive/nominal cells)", "cells": n})
+
+
+def ctxscope(F, rep, chk):
+    FIELD = "current_return_error_type"
+    writers = {}
+    readers = {}
+    for p in sorted(chk):
+        f = F.fns[p]
+        for bi, b in enumerate(f.blocks):
+            if b.get("cleanup"):
+                continue
+            for si, s in enumerate(b["st"]):
+                if s["s"] != "assign":
+                    continue
+                fl = place_fields(s["d"])
+                if fl and fl[-1][0].endswith("typechecker::TypeChecker") and fl[-1][2] == FIELD:
+                    writers.setdefault(p, []).append((bi, si, s))
+        for bi, si, pl, how in iter_read_places(f):
+            fl = place_fields(pl)
+            if how != "write" and any(x[0].endswith("typechecker::TypeChecker") and x[2] == FIELD for x in fl):
+                readers.setdefault(p, []).append((bi, si))
+    rep.floor("CTXSCOPE", "functions writing TypeChecker.current_return_error_type", len(writers), 2)
+    for p, ws in sorted(writers.items()):
+        f = F.fns[p]
+        wblocks = {bi for bi, _, _ in ws}
+        # final writes: a return is reachable from them without passing another write
+        finals = []
+        for (bi, si, s) in ws:
+            later_same_block = any(b2 == bi and s2 > si for b2, s2, _ in ws)
+            if later_same_block:
+                continue
+            others = wblocks - {bi}
+            reach = set()
+            for nb in f.succs()[bi]:
+                reach |= f.reachable(nb, avoid=others)
+            if any(f.term(b)["t"] == "return" for b in reach) or f.term(bi)["t"] == "return":
+                finals.append((bi, si, s))
+        ok = True
+        why = ""
+        for (bi, si, s) in finals:
+            rv = s["rv"]
+            is_none = rv["r"] == "agg" and rv.get("variant") == "None"
+            if rv["r"] == "use":
+                from engines import resolve_enum_value
+                val = resolve_enum_value(f, rv["o"])
+                is_none = is_none or (val is not None and val[0].endswith("option::Option") and val[1] == "None")
+            restores = False
+            if rv["r"] == "use":
+                pl = op_place(rv["o"])
+                if pl is not None:
+                    src = trace_local_source(f, pl["l"])
+                    # restored from a value previously loaded from the same field
+                    for (rb, rs) in readers.get(p, []):
+                        st = f.stmts(rb)[rs] if rs >= 0 else None
+                        if st is not None and not st["d"]["p"] and st["d"]["l"] in derived_set(f, pl["l"]):
+                            restores = True
+            if is_none and len(ws) >= 2:
+                continue
+            if restores:
+                continue
+            ok = False
+            why = "the last write on a path to return is neither a restore of the saved value nor the clearing " \
+                  "half of a set/clear pair"
+        short = p.split("::")[-1]
+        rep.oblige("CTXSCOPE", short, ok, sample={"rule": "CTXSCOPE", "fn": p, "writes": len(ws),
+                                                  "final_writes": len(finals), "scoped": ok})
+        if not ok:
+            rep.add(Finding("CTXSCOPE", "CTXSCOPE|%s|%s" % (short, FIELD),
+                            "%s overwrites the `?` error-type context (%s) and %s: after it returns, every later `?` "
+                            "in the enclosing function is checked against the wrong (or no) error type, so an "
+                            "incompatible error type is accepted" % (short, FIELD, why),
+                            file=f.file, line=ws[0][2].get("ln"), fn=p))
+
+
+def derived_set(f, local):
+    """locals from which `local` was copied/moved (backwards through single defs)."""
+    out = {local}
+    cur = local
+    for _ in range(10):
+        d = f.single_def(cur)
+        if d is None or d[2] != "assign":
+            break
+        rv = d[3]
+        if rv["r"] in ("use", "cast"):
+            pl = op_place(rv["o"])
+        elif rv["r"] in ("ref", "cfd"):
+            pl = rv["p"]
+        else:
+            break
+        if pl is None or pl["p"]:
+            break
+        cur = pl["l"]
+        out.add(cur)
+    return out
